@@ -131,8 +131,11 @@ func (d *wrappedSlidingWindowDetector) Check(seq uint64) (func() bool, bool) {
 			d.mask.Lsh(uint(-diff))
 			d.latestSeq = seq
 			latest = true
+			d.mask.SetBit(0)
+		} else {
+			// diff is the distance behind the head, also across the wrap.
+			d.mask.SetBit(uint(diff))
 		}
-		d.mask.SetBit(uint(d.latestSeq - seq))
 
 		return latest
 	}, true
